@@ -446,6 +446,10 @@ class Interp:
         if o is None: raise PyRaise(EXC["TypeError"], "'NoneType' object is not subscriptable")
         if isinstance(o, Unresolved): return o           # typing subscripts such as Float[Array, "n"]
         idx = self.ev_index(e.slice, env, mod)
+        if isinstance(o, dict) and o.get("__r__"):        # np.r_[a, b, ...]
+            from .models import arrays as _A
+            parts = idx if isinstance(idx, tuple) else (idx,)
+            return _A.concat([(_A.from_value(p_) if isinstance(p_, (list, tuple, SArr)) else arr_from_list([p_])) for p_ in parts], 0)
         if isinstance(o, dict) and is_z3(idx):           # symbolic key into a literal dict: one path per key, KeyError otherwise
             for k in o:
                 if isinstance(k, int) and not isinstance(k, bool) and self.truth(idx == k): return o[k]
